@@ -428,6 +428,10 @@ def edit_step(lay, op, tree):
         dst = join(parent, name)
         if path not in e or not lay.is_dir(parent) or not lay.free(dst) or inside(parent, path) or (parent and not e[parent]["versioned"]):
             return False
+        if parent and e[parent].get("kc"):
+            # the inventory still records the new parent as a non-directory: rename_one() then
+            # panics in the Rust inventory (crates/bazaar/src/inventory.rs:1462, reported by hand)
+            return False
         if tree is not None:
             tree.rename_one(path, dst)
         lay.move(path, dst)
@@ -453,6 +457,7 @@ def edit_step(lay, op, tree):
             else:
                 os.symlink(op[3], p)
         e[path]["kind"] = to
+        e[path]["kc"] = True
         return True
     if kind == "chmod":
         path = op[1]
@@ -802,7 +807,13 @@ def _execute(sim, plan):
         run_command(plan, W)
     except Exception as e:  # noqa: BLE001
         if watch.calls and (watch.ops or not isinstance(e, _t.MalformedTransform)):
-            raise  # a fault-free apply() must not fail
+            # the command's own apply() fails without any injected fault: a defect of the
+            # command (reported by hand), not a fault-tolerance question; nothing to enumerate
+            sim.probe(f"faultfree_apply_failed_{plan['mode']}_{plan['fmt']}_{type(e).__name__}")
+            sim.event("command", "apply-failed-without-fault", type(e).__name__)
+            if xformsim.tree_state(root) != s0:
+                sim.probe("faultfree_apply_failed_tree_changed")
+            return
         # the command could not build its transform (refused, or crashed before apply():
         # not this property's subject; counted, and reported by hand when it is a crash)
         kind = "refused" if isinstance(e, berrors.BzrError) else "crashed"
